@@ -27,7 +27,8 @@ func (m *FlatMem) Set(a uint16, v uint8) { m.d[a] = v }
 
 // LazyMem is a 64 KiB memory whose background is MemHash(seed, addr).
 type LazyMem struct {
-	seed int
+	seed int // -1: constant background val
+	val  uint8
 	ov   map[uint16]uint8
 }
 
@@ -35,26 +36,35 @@ func (m *LazyMem) Get(a uint16) uint8 {
 	if v, ok := m.ov[a]; ok {
 		return v
 	}
+	if m.seed < 0 {
+		return m.val
+	}
 	return MemHash(m.seed, int(a))
 }
 func (m *LazyMem) Set(a uint16, v uint8) { m.ov[a] = v }
 
 // DevDesc describes the memory device of an init event.
 type DevDesc struct {
-	Kind string // "hash" | "const"
+	Kind string // "hash" | "const" | "dumb" | "map"
 	Seed int
 	Val  int
 	Len  int
 }
 
 // NewInner builds the real memory object for a device description.
+//   hash  : 64 KiB, background MemHash(seed, addr)
+//   const : 64 KiB, background Val
+//   dumb  : z80.DumbMemory of Len bytes (zero filled)
+//   map   : z80.MapMemory (default 0xC7)
 func NewInner(d DevDesc) z80.Memory {
-	switch {
-	case d.Kind == "hash":
+	switch d.Kind {
+	case "hash":
 		return &LazyMem{seed: d.Seed, ov: map[uint16]uint8{}}
-	case d.Kind == "const" && d.Val == 0xC7 && d.Len == 65536:
+	case "const":
+		return &LazyMem{seed: -1, val: uint8(d.Val), ov: map[uint16]uint8{}}
+	case "map":
 		return z80.MapMemory{}
-	case d.Kind == "const" && d.Val == 0:
+	case "dumb":
 		return z80.DumbMemory(make([]uint8, d.Len))
 	}
 	panic("bad device")
